@@ -426,6 +426,13 @@ func emitLocks(ld *loaded, report *[]string) string {
 	fmt.Fprintf(&b, "\n/-- helpers that touch guarded state without locking: they must be called with the mutex held -/\ndef assuming : List (String × String × Prog) := [\n  %s]\n", strings.Join(assuming, ",\n  "))
 	fmt.Fprintf(&b, "\n/-- construction-time loaders (no other thread exists yet) -/\ndef ctors : List (String × Prog) := [\n  %s]\n", strings.Join(ctors, ",\n  "))
 	fmt.Fprintf(&b, "\n/-- who calls the construction-time loaders -/\ndef ctorCallers : List (String × String) := [\n  %s]\n", strings.Join(uniq(callers), ",\n  "))
+	// writes to fields that no mutex guards: they are configuration, set while the object is built
+	var uw []string
+	for _, pkg := range []string{"glow", "server"} {
+		uw = append(uw, unguardedWrites(ld.pkgs[pkg], pkg)...)
+	}
+	sort.Strings(uw)
+	fmt.Fprintf(&b, "\n/-- every assignment to a field of a lock-protected object that is NOT in the guarded-field table, as function:field -/\ndef unguardedWrites : List String := %s\n", leanStrList(uniq(uw)))
 	b.WriteString("end Gen.Locks\n")
 	*report = append(*report, fmt.Sprintf("Locks: %d entry units, %d lock-assuming helpers, %d constructor loaders", len(entries), len(assuming), len(ctors)))
 	return b.String()
@@ -459,4 +466,87 @@ func replaceCall(txt, marker, rep string) string {
 func leanIdent(n string) string {
 	r := strings.NewReplacer(".", "_", "$", "_fl")
 	return "u_" + r.Replace(n)
+}
+
+// unguardedWrites lists "pkg.Recv.Func:field" for every statement that assigns to (or deletes from, or
+// increments) a field of the receiver when the receiver's type has guarded fields and the field is not
+// one of them. Such fields are meant to be written only while the object is constructed.
+func unguardedWrites(p *packages.Package, pkg string) []string {
+	var out []string
+	for _, f := range p.Syntax {
+		fn := filepath.Base(p.Fset.Position(f.Pos()).Filename)
+		if strings.HasSuffix(fn, "_test.go") || strings.HasPrefix(fn, "verif_") || fn == "safeMu.go" {
+			continue
+		}
+		for _, d := range f.Decls {
+			fd, ok := d.(*ast.FuncDecl)
+			if !ok || fd.Body == nil {
+				continue
+			}
+			rt, rv := recvInfo(fd)
+			tab := guarded[rt]
+			if tab == nil || rv == "" {
+				continue
+			}
+			var pathOf func(e ast.Expr) []string
+			pathOf = func(e ast.Expr) []string {
+				switch x := e.(type) {
+				case *ast.Ident:
+					return []string{x.Name}
+				case *ast.SelectorExpr:
+					if p := pathOf(x.X); p != nil {
+						return append(p, x.Sel.Name)
+					}
+				case *ast.IndexExpr:
+					return pathOf(x.X)
+				case *ast.SliceExpr:
+					return pathOf(x.X)
+				case *ast.StarExpr:
+					return pathOf(x.X)
+				case *ast.ParenExpr:
+					return pathOf(x.X)
+				}
+				return nil
+			}
+			field := func(e ast.Expr) string {
+				parts := pathOf(e)
+				if len(parts) < 2 || parts[0] != rv {
+					return ""
+				}
+				path := strings.Join(parts[1:], ".")
+				for g := range tab {
+					if path == g || strings.HasPrefix(path, g+".") {
+						return ""
+					}
+				}
+				if parts[len(parts)-1] == "mu" {
+					return ""
+				}
+				return parts[1]
+			}
+			name := pkg + "." + rt + "." + fd.Name.Name
+			ast.Inspect(fd.Body, func(n ast.Node) bool {
+				switch x := n.(type) {
+				case *ast.AssignStmt:
+					for _, l := range x.Lhs {
+						if fl := field(l); fl != "" {
+							out = append(out, name+":"+fl)
+						}
+					}
+				case *ast.IncDecStmt:
+					if fl := field(x.X); fl != "" {
+						out = append(out, name+":"+fl)
+					}
+				case *ast.CallExpr:
+					if id, ok := x.Fun.(*ast.Ident); ok && id.Name == "delete" && len(x.Args) > 0 {
+						if fl := field(x.Args[0]); fl != "" {
+							out = append(out, name+":"+fl)
+						}
+					}
+				}
+				return true
+			})
+		}
+	}
+	return out
 }
